@@ -8,7 +8,7 @@ from worlds import master, worker as W
 ID = "C18"
 LEVEL = "exploration"
 DESIGN_REF = "DESIGN.md §4 C18"
-QUICK_RUNS = 8000
+QUICK_RUNS = 16000
 THOROUGH_MIN_RUNS = 40000
 BATCH = 50
 CASE_WALL_S = 60.0
